@@ -36,6 +36,7 @@ type FlowOpts struct {
 	Linger             int  // faults continue for this many steps after the workload was issued
 	MuteBroker         bool // the broker consumes and never answers (a handshake that only Close or Disconnect can end)
 	InvalidArg         int  // permille of publisher iterations that first issue a request with an invalid topic
+	Volatile           bool // the client is a VolatileSession (in-memory store of the package, no integrity layer)
 	InWindow           int  // the broker's in-flight window: no new message while that many QoS 1/2 transactions are open (0: unlimited)
 	ReuseIDs           bool // the broker reuses packet identifiers as soon as their transaction is complete
 	LazyResend         bool // the broker postpones the retransmission of messages the application holds unacknowledged
@@ -212,12 +213,26 @@ func (f *Flow) OnConn(c *Conn) {
 	c.OnWire = func(c *Conn, p *WirePkt) {
 		if p.Type == PUBLISH && p.QoS > 0 {
 			if pb := f.byTopic[p.Topic]; pb != nil {
+				if f.O.Volatile && pb.ID == 0 {
+					// no storage operations to learn the identifier from
+					pb.ID = p.ID
+					pb.SavedAny, pb.Saved = true, true
+					f.byID[p.ID] = pb
+				}
 				if pb.FirstWire == 0 {
 					pb.FirstWire = f.W.Steps
 				}
 				if n := len(pb.WireConns); n == 0 || pb.WireConns[n-1] != c.id {
 					pb.WireConns = append(pb.WireConns, c.id)
 				}
+			}
+		}
+		if f.O.Volatile && p.Type == PUBREL {
+			// the PUBREL replaced the PUBLISH in the (unobserved) store
+			// before it was written
+			if pb := f.byID[p.ID]; pb != nil && !pb.RelSaved {
+				pb.RelSaved = true
+				pb.RelStep = c.firstByteStep(p.Off)
 			}
 		}
 		f.reqWire(c, p)
@@ -753,6 +768,9 @@ func (f *Flow) pollExchanges() {
 				if !ok {
 					pb.ExClosed = true
 					pb.ExStep = f.W.Steps
+					if f.O.Volatile {
+						pb.Deleted, pb.DelStep = true, f.W.Steps+1 // the in-memory store is not observed
+					}
 					f.W.Ev("exchange", pb.Idx, "#%d closed", pb.Idx)
 					break drain
 				}
